@@ -130,6 +130,10 @@ def trial(U, links, seed, max_tries=80):
 
 
 def run(U, rep, tier):
+  # R12.3: the recursions of the step run through scan.tree / scan.link_types / _take: specified for every forest of the
+  # bounded universe (shared with C01 R1.2) -- the instantiated models are a few tree shapes
+  from braxlint.props import c01
+  c01.scan_spec(U, rep, tier, rule='R12.3')
   f = U.func('brax.generalized.integrator.integrate')
   s0 = int(os.environ.get('VERIF_SEED', '0') or 0)
   ntr = 2 if tier == 'quick' else 5
